@@ -196,6 +196,13 @@ func values(thorough bool) []Val {
 	add("cvt.Box", "cvt.Box{In: vt.Inner{X: 1}, C: cvt.C(2)}")
 	add("map[cvt.C]vt.MyInt", "map[cvt.C]vt.MyInt{cvt.C(1): vt.MyInt(2)}")
 	add("[]cvt.Box", "[]cvt.Box{{}, {C: 3}}")
+	// one value holding types with the same package name AND type name from two different packages
+	add("cvt.Twin", "cvt.Twin{Mine: cvt.Inner{Y: 1}, Theirs: vt.Inner{X: 2}, N: cvt.MyInt(3), M: vt.MyInt(4)}")
+	add("cvt.Twin", "cvt.Twin{Theirs: vt.Inner{X: 2}, Mine: cvt.Inner{Y: 1}, P: &cvt.Inner{Y: 5}, Q: &vt.Inner{X: 6}}")
+	add("cvt.Twin", "cvt.Twin{S: []cvt.Inner{{Y: 1}}, T: []vt.Inner{{X: 2}}, K: map[cvt.MyInt]vt.MyInt{1: 2}}")
+	add("cvt.Twin", "cvt.Twin{T: []vt.Inner{{X: 2}}, S: []cvt.Inner{{Y: 1}}, Q: &vt.Inner{X: 6}, P: &cvt.Inner{Y: 5}}")
+	add("map[vt.MyInt]cvt.MyInt", "map[vt.MyInt]cvt.MyInt{vt.MyInt(1): cvt.MyInt(2)}")
+	add("map[cvt.MyInt]vt.Inner", "map[cvt.MyInt]vt.Inner{cvt.MyInt(1): {X: 2}}")
 	add("[2][2]int", "[2][2]int{{1, 2}, {3, 4}}")
 	add("map[vt.Key][]vt.Inner", "map[vt.Key][]vt.Inner{vt.Key{A: 1}: {{X: 1}, {}}}")
 	add("[]vt.Emb", "[]vt.Emb{{Inner: vt.Inner{Y: \"e\"}}, {}}")
@@ -290,6 +297,23 @@ type C int
 type Box struct {
 	In real.Inner
 	C  C
+}
+
+// Inner and MyInt have the same names as types of the other package called vt.
+type Inner struct{ Y int }
+
+type MyInt int
+
+type Twin struct {
+	Mine   Inner
+	Theirs real.Inner
+	N      MyInt
+	M      real.MyInt
+	P      *Inner
+	Q      *real.Inner
+	S      []Inner
+	T      []real.Inner
+	K      map[MyInt]real.MyInt
 }
 `
 
@@ -513,6 +537,19 @@ func main() {
 			return
 		}
 	}
+	// packages no literal referred to (named scalars render as bare untyped constants): the want side and
+	// the declared types still need them, under names of the harness' own
+	full := map[string]string{}
+	for p, n := range r.Imports {
+		full[p] = n
+	}
+	for _, d := range []struct{ path, name, use string }{{modPath + "/vt", "hvt", "MyInt"}, {modPath + "/vt2", "hvt2", "Other"}, {modPath + "/clash/vt", "hcvt", "C"}} {
+		if _, ok := full[d.path]; !ok {
+			full[d.path] = d.name
+			fmt.Fprintf(&impLines, "\t%s %q\n", d.name, d.path)
+			uses += "var _ " + d.name + "." + d.use + "\n"
+		}
+	}
 	writeB := func(skip []bool) error {
 		var b strings.Builder
 		b.WriteString("package tgt\n\nimport (\n" + impLines.String() + "\t\"" + modPath + "/verifkit\"\n)\n\n" + uses + "\n")
@@ -522,14 +559,14 @@ func main() {
 			if skip[i] || r.Panics[i] != "" {
 				continue
 			}
-			fmt.Fprintf(&b, "//case:%d\nvar got_%d %s = %s\n", i, i, rewriteQual(q(v.Type, ""), r.Imports), r.Texts[i])
+			fmt.Fprintf(&b, "//case:%d\nvar got_%d %s = %s\n", i, i, rewriteQual(q(v.Type, ""), full), r.Texts[i])
 		}
 		b.WriteString("//case:-1\n\nfunc VerifRun() (checks int, fails []string) {\n")
 		for i, v := range vals {
 			if skip[i] || r.Panics[i] != "" {
 				continue
 			}
-			fmt.Fprintf(&b, "\tverifkit.CheckValue(&checks, &fails, %d, got_%d, %s)\n", i, i, wantExpr(v, r.Imports))
+			fmt.Fprintf(&b, "\tverifkit.CheckValue(&checks, &fails, %d, got_%d, %s)\n", i, i, wantExpr(v, full))
 		}
 		b.WriteString("\treturn\n}\n")
 		return os.WriteFile(dir+"/tgt/verif_check.go", []byte(b.String()), 0o644)
@@ -571,7 +608,11 @@ func main() {
 			i := caseOfLine[ln]
 			fail(i, classify(vals[i], r.Texts[i]), "the rendered literal %q does not type-check as that type: %s", r.Texts[i], e.Msg)
 		} else {
-			c.Internal("type error not attributable to a literal: %s: %s", e.Pos, e.Msg)
+			line := ""
+			if ln-1 >= 0 && ln-1 < len(lines) {
+				line = lines[ln-1]
+			}
+			c.Internal("type error not attributable to a literal: %s: %s\n\t%s", e.Pos, e.Msg, line)
 			return
 		}
 	}
@@ -669,7 +710,7 @@ func replay(c *core.Ctx, raw json.RawMessage) {
 func init() {
 	core.Register(&core.Prop{
 		ID: "C10", Level: "model_checking", Run: run, Replay: replay, Shards: 4,
-		Rule:        "value model: every listed boundary value of every scalar type (bool, all int/uint kinds incl. uintptr, runes, float32/64 edge values, strings with quotes/newlines/backquotes/non-UTF-8/NUL, and every string of <=2 (3) characters over 16 special characters: quote, backslash, backquote, LF, CR, TAB, NUL, DEL, invalid byte, BOM, U+2028, NBSP, apostrophe, non-ASCII, astral), named scalars of two foreign packages and of the target package, a one-level pointer to each of them (and nil pointers); for 9 element types: nil/empty/1/3-element slices, arrays, pointers, pointers to slices, maps under 6 key types (string, int, bool, named string, array, struct) incl. two insertion orders of the same map; structs with zero and non-zero members of every field kind (pointer to zero struct, zero struct as map value / slice element, embedded, anonymous, cross-package); depth-2 containers. Each is rendered by snippet.Value in a compiled program, type-checked as `var got T = <text>` in the target package and compared at run time with the original (nil == empty); same text when rendered twice and for both insertion orders; the whole list is rendered in 4 sessions (files) of one process - same target, same target again, another target, the first target again - and sessions for the same target must agree in texts and registered imports; built with the map-order seam the sessions run under ascending / descending / rotated iteration of every map (reflect.MapKeys included). Non-trivial = composite/pointer values; states = distinct type shapes",
+		Rule:        "value model: every listed boundary value of every scalar type (bool, all int/uint kinds incl. uintptr, runes, float32/64 edge values, strings with quotes/newlines/backquotes/non-UTF-8/NUL, and every string of <=2 (3) characters over 16 special characters: quote, backslash, backquote, LF, CR, TAB, NUL, DEL, invalid byte, BOM, U+2028, NBSP, apostrophe, non-ASCII, astral), named scalars of two foreign packages and of the target package, a one-level pointer to each of them (and nil pointers); for 9 element types: nil/empty/1/3-element slices, arrays, pointers, pointers to slices, maps under 6 key types (string, int, bool, named string, array, struct) incl. two insertion orders of the same map; structs with zero and non-zero members of every field kind (pointer to zero struct, zero struct as map value / slice element, embedded, anonymous, cross-package, and values mixing types that share package name and type name across two packages); depth-2 containers. Each is rendered by snippet.Value in a compiled program, type-checked as `var got T = <text>` in the target package and compared at run time with the original (nil == empty); same text when rendered twice and for both insertion orders; the whole list is rendered in 4 sessions (files) of one process - same target, same target again, another target, the first target again - and sessions for the same target must agree in texts and registered imports; built with the map-order seam the sessions run under ascending / descending / rotated iteration of every map (reflect.MapKeys included). Non-trivial = composite/pointer values; states = distinct type shapes",
 		Assumptions: []string{"NaN/Inf, complex numbers, pointer map keys, func/chan/interface-typed members and unexported fields are outside the stated domain"},
 	})
 }
